@@ -4,6 +4,7 @@ import (
 	"encoding/json"
 	"fmt"
 	"math/big"
+	"strings"
 
 	"github.com/onflow/cadence/interpreter"
 
@@ -223,7 +224,20 @@ func c15Detail(cs c15Case, d string) string {
 	return fmt.Sprintf("[%s] %s: raw %s %s raw %s: %s", where, cs.Type, cs.A, c15Operator[cs.Op], cs.B, d)
 }
 
+// c15Sig: operation (call site), kind of disagreement, structural class of the exact result:
+// exact / frac-pos / frac-neg (digits dropped; ties and results of zero are not distinguished) /
+// out-of-range-high|low / divzero / mod..., plus "|wide-divisor" when the divisor needs more than 64 bits
 func c15Sig(cs c15Case, bad, class string) string {
+	class = strings.TrimSuffix(class, "-to-zero")
+	class = strings.Replace(strings.Replace(class, "inexact-", "frac-", 1), "tie-", "frac-", 1)
+	// a divisor wider than one 64-bit word takes the multi-word long-division path: its own class
+	div := cs.B
+	if cs.Op == "MultiplyDivide" {
+		div = cs.C
+	}
+	if (cs.Op == "MultiplyDivide" || cs.Op == "Div" || cs.Op == "Mod") && div != "" && bi(div).BitLen() > 64 {
+		class += "|wide-divisor"
+	}
 	site := cs.Type + "." + cs.Op
 	if cs.Layer == "script" {
 		site = "script/" + cs.Engine + ":" + site
@@ -248,16 +262,24 @@ func runC15(env *mc.Env) {
 		op     string
 		as     []*big.Int // first operands handled by this job
 		bs, cs []*big.Int
-		record bool // record distinct non-trivial keys (kept off for the largest product to bound memory)
+		record bool   // record distinct non-trivial keys (kept off for the largest products to bound memory)
+		rules  []Rule // rounding rules applied (multiplyDivide only)
 	}
 	var jobs []job
+	jobRules := rules
 	chunk := func(t *num.Type, op string, as, bs, cs []*big.Int, n int, record bool) {
 		for lo := 0; lo < len(as); lo += n {
 			hi := lo + n
 			if hi > len(as) {
 				hi = len(as)
 			}
-			jobs = append(jobs, job{t, op, as[lo:hi], bs, cs, record})
+			jobs = append(jobs, job{t, op, as[lo:hi], bs, cs, record, jobRules})
+		}
+	}
+	towardZero := rules[:0:0]
+	for _, r := range rules {
+		if r.Name == "towardZero" {
+			towardZero = append(towardZero, r)
 		}
 	}
 	sizes := map[string]any{}
@@ -265,7 +287,7 @@ func runC15(env *mc.Env) {
 		L := fixedLattice(t, env.Thorough())
 		core := coreLattice(t, 2)
 		small := coreLattice(t, mc.Pick(env, 0, 1))
-		sizes[t.Name] = map[string]int{"lattice": len(L), "core": len(core), "small": len(small)}
+		sizes[t.Name] = map[string]int{"lattice": len(L), "core": len(core), "small": len(small), "wide_divisors": len(divisorLattice(t))}
 		for _, op := range c15BinaryOps {
 			chunk(t, op, L, L, nil, 32, true)
 		}
@@ -276,6 +298,20 @@ func runC15(env *mc.Env) {
 		chunk(t, "MultiplyDivide", L, small, small, 16, true)
 		chunk(t, "MultiplyDivide", small, L, small, 1, true)
 		chunk(t, "MultiplyDivide", small, small, L, 1, true)
+		// wide-divisor stress (128-bit types): every lattice pair over every divisor of
+		// divisorLattice (the long division a*b/c with a divisor wider than one machine word);
+		// truncation only, the rules are exercised by the products above
+		if t.Bits > 64 {
+			jobRules = towardZero
+			chunk(t, "MultiplyDivide", L, L, divisorLattice(t), 4, false)
+			// ... and every (extreme or power of two) x (power of two) pair over the same divisors
+			p2 := powersOfTwo(t)
+			for _, op := range []string{"Mul", "Div", "Mod"} {
+				chunk(t, op, union(L, p2), union(divisorLattice(t), p2), nil, 32, false)
+			}
+			chunk(t, "MultiplyDivide", union(p2, coreLattice(t, 1)), p2, divisorLattice(t), 4, false)
+			jobRules = rules
+		}
 		if env.Thorough() {
 			chunk(t, "MultiplyDivide", L, L, small, 4, false)
 			chunk(t, "MultiplyDivide", L, small, L, 4, false)
@@ -325,7 +361,7 @@ func runC15(env *mc.Env) {
 					continue
 				}
 				for _, c := range j.cs {
-					for _, r := range rules {
+					for _, r := range j.rules {
 						one(a, b, c, r)
 					}
 				}
@@ -338,6 +374,36 @@ func runC15(env *mc.Env) {
 			}
 		}
 	})
+
+	// every disagreement of the direct layer is re-executed as a script in both engines
+	// (first case of each signature), so that it is shown through the public entry point
+	for _, fc := range sigs.firstCases() {
+		cs, ok := fc.(c15Case)
+		if !ok || cs.Layer != "direct" {
+			continue
+		}
+		t := num.ByName[cs.Type]
+		a, b := bi(cs.A), bi(cs.B)
+		var c *big.Int
+		if cs.C != "" {
+			c = bi(cs.C)
+		}
+		exp := c15Expect(t, cs.Op, a, b, c, cs.Rule)
+		for _, vm := range []bool{false, true} {
+			sc := cs
+			sc.Layer, sc.Engine = "script", engineName(vm)
+			res := oneScript(vm, t.Name, c15Expr(t, cs.Op, a, b, c, cs.Rule))
+			env.R.Eval()
+			env.R.Add("direct_disagreements_rerun_as_scripts", 1)
+			if bad, detail := judge(exp, t.Name, obsScript(res)); bad != "" {
+				if msg := c15LiteralsMisread(t, vm, sc); msg != "" {
+					env.R.HarnessError("C15 script re-run: %s (case %+v)", msg, sc)
+					continue
+				}
+				sigs.violation(env, c15Sig(sc, bad, exp.class), sc, c15Detail(sc, detail+" ; expression: "+c15Expr(t, cs.Op, a, b, c, cs.Rule)))
+			}
+		}
+	}
 
 	runC15Scripts(env, sigs)
 }
@@ -472,7 +538,7 @@ func replayC15(env *mc.Env, raw json.RawMessage) (bool, string) {
 func init() {
 	mc.Register(&mc.Check{
 		ID: "C15",
-		Rule: "direct layer: for each of Fix64, UFix64, Fix128, UFix128 every ordered pair of the fixed-point lattice (B(T) on the raw scaled integer plus +-k units, +-k.0, +-k.5, integer parts of the bounds, floor(sqrt(max*10^scale))+-1, max/2, max/3, max/10) for + - * / %; for multiplyDivide every triple of the core lattice (49 signed / 25 unsigned values) and every lattice value combined with every pair of 'small' values (0, +-1 unit, +-3 units, +-1.0, +-2.0, min, max) in each of the three positions (thorough: every lattice pair with every small value), each with every rounding rule of sema.RoundingRules; " +
+		Rule: "direct layer: for each of Fix64, UFix64, Fix128, UFix128 every ordered pair of the fixed-point lattice (B(T) on the raw scaled integer plus +-k units, +-k.0, +-k.5, integer parts of the bounds, floor(sqrt(max*10^scale))+-1, max/2, max/3, max/10) for + - * / %; for multiplyDivide every triple of the core lattice (49 signed / 25 unsigned values) and every lattice value combined with every pair of 'small' values (0, +-1 unit, +-3 units, +-1.0, +-2.0, min, max) in each of the three positions (thorough: every lattice pair with every small value), each with every rounding rule of sema.RoundingRules; for Fix128/UFix128 additionally (rule towardZero) every lattice pair and every power-of-two pair over every divisor wider than 64 bits (10^k, 10^k+-1, floor(sqrt(max*10^24))+-2) and * / % on those operands; every direct-layer disagreement is re-run as a script in both engines; " +
 			"script layer: every pair of a reduced lattice for the five operators and every triple of the smallest core for multiplyDivide with each rule and with the rounding argument omitted, as scripts in interpreter and VM; " +
 			"reference = math/big on raw scaled integers; non-trivial = distinct case whose exact result needed truncation/rounding, was a tie, was out of range, divided by zero, or was a % whose quotient is out of range",
 		Assumptions: []string{
